@@ -25,10 +25,25 @@ def log(*a):
     print(*a, file=sys.stderr, flush=True)
 
 
+class MultiLock:
+    """Locks every file of a proof cone (sorted order => no deadlock) so checks with disjoint cones build in parallel."""
+    def __init__(self, names):
+        self.locks = [Lock(n) for n in sorted(set(names))]
+
+    def __enter__(self):
+        for l in self.locks:
+            l.__enter__()
+        return self
+
+    def __exit__(self, *a):
+        for l in reversed(self.locks):
+            l.__exit__(*a)
+
+
 class Lock:
     def __init__(self, name):
-        os.makedirs(BUILD, exist_ok=True)
-        self.path = os.path.join(BUILD, name + ".lock")
+        os.makedirs(os.path.join(BUILD, "locks"), exist_ok=True)
+        self.path = os.path.join(BUILD, "locks", name.replace("/", "__") + ".lock")
 
     def __enter__(self):
         self.f = open(self.path, "w")
@@ -140,9 +155,14 @@ def run_translators(spec):
 def coq_build(spec, timeout=2400):
     """Build the cone of the property. Returns dict(ok, log, cone, obligations, failed_file)."""
     mods = [spec["props"], spec["harness"]] + spec.get("extra_modules", [])
-    with Lock("coq"):
-        tmsgs = run_translators(spec)
+    with Lock("coqproject"):
         write_coqproject()
+    cone = cone_of(mods)
+    gen = ["Gen/" + os.path.basename(g) for g in spec.get("gen_outputs", [])]
+    with MultiLock(["cone:" + f for f in cone + gen if not f.startswith("Lib/")] + ["translators:" + t for t in spec.get("translators", [])]):
+        tmsgs = run_translators(spec)
+        with Lock("coqproject"):
+            write_coqproject()
         cone = cone_of(mods)
         targets = [m.replace(".", "/") + ".vo" for m in mods]
         t0 = time.time()
@@ -230,8 +250,7 @@ def build_driver(spec, workdir):
     if spec.get("race"):
         cmd.insert(3, "-race")
     t0 = time.time()
-    with Lock("go"):
-        rc, out = sh(cmd, cwd=REPO, env=GOENV, timeout=1800)
+    rc, out = sh(cmd, cwd=REPO, env=GOENV, timeout=1800)
     return rc == 0, out, binp, time.time() - t0, " ".join(cmd)
 
 
@@ -562,7 +581,11 @@ def check(pid, tier="quick", replay=None):
         ev["coverage"]["coqchk"] = run_coqchk(spec)
     write_evidence(spec, ev)
 
+    seen_known = set()
     for key, what in known:
+        if key in seen_known:
+            continue
+        seen_known.add(key)
         print("KNOWN-FINDING: property=%s %s (key=%s)" % (pid, what, key))
     for n_ in notes:
         log("note:", n_[:2000])
@@ -578,7 +601,7 @@ def check(pid, tier="quick", replay=None):
 def run_coqchk(spec):
     mods = ["Cfg." + spec["props"]]
     t0 = time.time()
-    with Lock("coq"):
+    with MultiLock(["cone:" + f for f in cone_of([spec["props"], spec["harness"]]) if not f.startswith("Lib/")]):
         try:
             rc, out = sh(["coqchk", "-silent", "-o", "-Q", COQ, "Cfg"] + mods, cwd=COQ, timeout=3 * 3600)
         except subprocess.TimeoutExpired:
